@@ -437,6 +437,14 @@ def b_next(interp, args, kwargs, node):
     raise Unsupported(f'next() on {type(v).__name__}', node)
 
 
+# string constants of openpyxl.formula.tokenizer.Token (base class of pycel's Token)
+EXTERNAL_CLASS_CONSTANTS = {'tokenizer.Token': {
+    'LITERAL': 'LITERAL', 'OPERAND': 'OPERAND', 'FUNC': 'FUNC', 'ARRAY': 'ARRAY', 'PAREN': 'PAREN', 'SEP': 'SEP',
+    'OP_PRE': 'OPERATOR-PREFIX', 'OP_IN': 'OPERATOR-INFIX', 'OP_POST': 'OPERATOR-POSTFIX', 'WSPACE': 'WHITE-SPACE',
+    'TEXT': 'TEXT', 'NUMBER': 'NUMBER', 'LOGICAL': 'LOGICAL', 'ERROR': 'ERROR', 'RANGE': 'RANGE', 'OPEN': 'OPEN',
+    'CLOSE': 'CLOSE', 'ARG': 'ARG', 'ROW': 'ROW'}}
+
+
 class ListIter:
     def __init__(self, items):
         self.items = list(items)
